@@ -33,7 +33,8 @@ RingBuffer(r) == r.delay \in {"edge", "mixed", "mixed2"} /\ ~Adaptive(r.solver) 
 ReservedNames == {"y", "dy", "source_idx", "target_idx", "pi", "I", "E", "S", "Q", "O", "N", "oo", "zoo", "nan", "beta", "gamma", "Beta", "Gamma",
                   "exp", "log", "sin", "cos", "tan", "cot", "sec", "csc", "sinh", "cosh", "tanh", "sqrt", "abs"}
 ReservedDefects == {"reserved:" \o n : n \in ReservedNames}
-RaiseDefects == ReservedDefects \cup {"reserved_name", "undeclared_var", "undeclared_var_declared_by_sibling_op", "undeclared_var_declared_by_later_sibling_op", "value_missing_op", "value_missing_op_all", "edge_missing_source_node", "edge_missing_source_var",
+RaiseDefects == ReservedDefects \cup {"reserved_name", "undeclared_var", "undeclared_var_declared_by_sibling_op", "undeclared_var_declared_by_later_sibling_op",
+                 "value_missing_var_second_node", "edge_template_two_outputs", "value_missing_op", "value_missing_op_all", "edge_missing_source_node", "edge_missing_source_var",
                  "edge_missing_target_var", "output_missing_node", "output_missing_var", "two_outputs", "cyclic_ops"}
 WarnDefects == {"input_missing_var", "input_missing_node", "update_missing_var", "nodevalue_missing_node"}
 
